@@ -75,48 +75,37 @@ theorem group_find_first_sound_complete (g : Grp) (nm : Nat) (keys : List Nat) (
     ((groupFindOne g nm keys dflt q).2 = true ↔ allHits g nm keys q = []) ∧
     (allHits g nm keys q ≠ [] → ∃ i, headOnly false (groupFindOne g nm keys dflt q).1 = [some i] ∧
       i ∈ allHits g nm keys q) := by
-  rcases groupFindOne_spec g nm keys dflt q hs with ⟨h1, h2⟩ | ⟨m, hm, hne, _, h2⟩
+  rcases groupFindOne_spec g nm keys dflt q hs with ⟨h1, h2⟩ | ⟨hne, h2⟩
   · exact ⟨by simp [h1, h2], fun h => absurd h1 h⟩
-  · have hmem : ∀ i, i ∈ hits (rowsOf g m) keys q → i ∈ allHits g nm keys q :=
-      fun i hi => (mem_allHits g nm keys q i).mpr ⟨m, hm, hi⟩
-    cases hh : hits (rowsOf g m) keys q with
+  · cases hh : allHits g nm keys q with
     | nil => exact absurd hh hne
     | cons a t =>
-      have ha : a ∈ allHits g nm keys q := hmem a (by rw [hh]; simp)
-      refine ⟨?_, fun _ => ⟨a, by simp [h2, hh, headOnly], ha⟩⟩
+      have ha : a ∈ allHits g nm keys q := by rw [hh]; simp
+      refine ⟨?_, fun _ => ⟨a, by simp [h2, hh, headOnly], by rw [← hh]; exact ha⟩⟩
       rw [h2]
       constructor
       · intro h; cases h
-      · intro h; rw [h] at ha; cases ha
+      · intro h; cases h
 
-/-- **Group-level `find_idx` with `allow_all`** returns every device of the group that has the values —
-`_partial`: only when at most ONE model of the group has a match.  The full statement (no such
-hypothesis) is false for the code as written: `group_find_all_omits_other_models`.
--- full statement: `groupFindOne g nm keys dflt q = ((allHits g nm keys q).map some, false)` whenever
--- `allHits g nm keys q ≠ []`. -/
-theorem group_find_all_partial (g : Grp) (nm : Nat) (keys : List Nat) (dflt : Val) (q : List Val)
-    (hs : NoSentinel g dflt) (hne : allHits g nm keys q ≠ [])
-    (hone : ∀ m m', m < nm → m' < nm → hits (rowsOf g m) keys q ≠ [] → hits (rowsOf g m') keys q ≠ [] → m = m') :
+/-- **Group-level `find_idx` with `allow_all`** returns every device of the group that has the values, models in
+group order — full strength since the repair of `GroupBase.find_idx`, which kept the matches of the first model
+only (`known_findings.json`, `group-find-all-first-model-only`, fixed). -/
+theorem group_find_all (g : Grp) (nm : Nat) (keys : List Nat) (dflt : Val) (q : List Val)
+    (hs : NoSentinel g dflt) (hne : allHits g nm keys q ≠ []) :
     groupFindOne g nm keys dflt q = ((allHits g nm keys q).map some, false) := by
-  rcases groupFindOne_spec g nm keys dflt q hs with ⟨h1, _⟩ | ⟨m, hm, hm1, _, h2⟩
+  rcases groupFindOne_spec g nm keys dflt q hs with ⟨h1, _⟩ | ⟨_, h2⟩
   · exact absurd h1 hne
-  · have : allHits g nm keys q = hits (rowsOf g m) keys q := by
-      unfold allHits
-      refine flatMap_single _ m nm hm ?_
-      intro m' hm' hne'
-      by_contra hc
-      exact hne' (hone m' m hm' hm hc hm1)
-    rw [h2, this]
+  · exact h2
 
-/-- the group used by the two counterexamples: `PV` 1 on bus 2, `Slack` 2 on bus 2 -/
+/-- the group used by the witnesses: `PV` 1 on bus 2, `Slack` 2 on bus 2 -/
 def gTwo : Grp :=
   addDev ["PV", "Slack"] (addDev ["PV", "Slack"] [] 0 (some (.num 1)) [none, some (.num 2)]) 1 (some (.num 2))
     [none, some (.num 2)]
 
-/-- **Defect (group-find-all-first-model-only)**: `StaticGen.find_idx('bus', [2], allow_all=True)` with a
-`PV` and a `Slack` on bus 2 returns `[[1]]`; the devices on bus 2 are `1` and `2`. -/
-theorem group_find_all_omits_other_models :
-    groupFind gTwo 2 [2] [[some (.num 2)]] false true none = some [[some (.num 1)]] ∧
+/-- the input that failed on the pinned tree: `StaticGen.find_idx('bus', [2], allow_all=True)` with a `PV` and a
+`Slack` on bus 2 now returns both devices -/
+theorem group_find_all_two_models_witness :
+    groupFind gTwo 2 [2] [[some (.num 2)]] false true none = some [[some (.num 1), some (.num 2)]] ∧
     allHits gTwo 2 [2] [some (.num 2)] = [.num 1, .num 2] := by
   decide +kernel
 
@@ -335,15 +324,8 @@ the correspondence runs; here only that it differs from 1) -/
 example : (newDev ["PV", "Slack"] gTwo 1 (some (.num 1)) []).idx ∉ used gTwo :=
   (auto_idx_fresh ["PV", "Slack"] gTwo 1 (some (.num 1))).1
 example : (.num 7 : Idx) ∉ used gTwo := by decide +kernel
-/-- `group_find_all_partial` applies: only the Slack has `idx = 2` -/
-example : allHits gTwo 2 [0] [some (.num 2)] ≠ [] ∧
-    ∀ m m', m < 2 → m' < 2 → hits (rowsOf gTwo m) [0] [some (.num 2)] ≠ [] →
-      hits (rowsOf gTwo m') [0] [some (.num 2)] ≠ [] → m = m' := by
-  refine ⟨by decide +kernel, ?_⟩
-  intro m m' hm hm'
-  have h1 : m = 0 ∨ m = 1 := by omega
-  have h2 : m' = 0 ∨ m' = 1 := by omega
-  rcases h1 with rfl | rfl <;> rcases h2 with rfl | rfl <;> decide +kernel
+/-- `group_find_all` applies (its hypotheses are satisfiable): a match exists and `none` is no device idx -/
+example : allHits gTwo 2 [2] [some (.num 2)] ≠ [] ∧ NoSentinel gTwo none := ⟨by decide +kernel, noSentinel_none _⟩
 example : FOk ⟨false, 0, 0, 2, 2, 2, true, true⟩ := ⟨by decide, by decide, by decide⟩
 example : FOk ⟨true, 0, 0, 2, 2, 2, true, true⟩ := ⟨by decide, by decide, by decide⟩
 /-- a dangling reference and a resolvable one -/
